@@ -52,7 +52,7 @@ Done ==
     /\ i = Len(Traces[tid].ev) + 1
     /\ TLCSet(2, Append(TLCGet(2),
                         [id |-> Traces[tid].id, v |-> cs.v, cnt |-> cs.cnt, n |-> cs.n,
-                         scE |-> cs.scE, sc03 |-> cs.sc03, posOK |-> cs.posOK,
+                         scE |-> cs.scE, scM |-> cs.scM, sc03 |-> cs.sc03, posOK |-> cs.posOK,
                          clean |-> cs.clean]))
     /\ i' = i + 1
     /\ UNCHANGED <<tid, cs>>
